@@ -57,6 +57,17 @@ pub fn gen_case(rng: &mut Rng, idx: usize, thorough: bool) -> Value {
         };
         return json!({"substring": chunks, "form": 3, "seed": rng.next() % 1_000_000_000, "maxlen": if thorough { 5 } else { 4 }});
     }
+    if (4..7).contains(&idx) {
+        // directed: escaped slashes followed by another escape, a metacharacter or a class letter, given as
+        // regex text through `from_regex` (the regex-to-Lark rewriter treats `\/` separately)
+        let az = Rx::Rep(Box::new(Rx::Class(vec![('a', 'z')], false)), 1, None);
+        let r = match idx {
+            4 => Rx::Cat(vec![Rx::Lit("http".into()), Rx::Rep(Box::new(Rx::Lit("s".into())), 0, Some(1)), Rx::Lit("://".into()), az]),
+            5 => Rx::Cat(vec![Rx::Lit("foo/".into()), Rx::Dot]),
+            _ => Rx::Alt(vec![Rx::Lit("a/dd".into()), Rx::Cat(vec![Rx::Lit("/".into()), Rx::Class(vec![('0', '9')], false)])]),
+        };
+        return json!({"rx": rx_to_json(&r), "form": 0, "seed": rng.next() % 1_000_000_000, "maxlen": if thorough { 5 } else { 4 }});
+    }
     let r = gen_rx_ext(rng, 3);
     let form = if r.has_and_not() { 2 } else { idx % 3 };
     json!({"rx": rx_to_json(&r), "form": form, "seed": rng.next() % 1_000_000_000, "maxlen": if thorough { 5 } else { 4 }})
